@@ -389,6 +389,26 @@ pub fn grid() -> Vec<Ints> {
             v.push(vec![140, 11, s as i128, r.to_bits() as i128]);
         }
     }
+    // products size * ratio that are a hair off an integer in binary64 (50 * 0.58 = 28.999999999999996,
+    // 5 * (0.3 - 0.1) = 0.9999999999999999): floor must be taken in double precision, on the exact product
+    for &s in &[5u64, 7, 10, 50, 100, 1000] {
+        for k in 1..100u64 {
+            for r in [k as f64 / 100.0, (k as f64 / 10.0 - 0.1) / 10.0] {
+                if !(r > 0.0 && r <= 1.0) {
+                    continue;
+                }
+                let p = s as f64 * r;
+                let d = (p - p.round()).abs();
+                if d > 0.0 && d < 1e-9 {
+                    let other = RATIOS[4].to_bits() as i128;
+                    v.push(vec![140, 3, s as i128, r.to_bits() as i128, r.to_bits() as i128]);
+                    v.push(vec![140, 4, s as i128, r.to_bits() as i128, other]);
+                    v.push(vec![140, 10, s as i128, r.to_bits() as i128]);
+                    v.push(vec![140, 11, s as i128, r.to_bits() as i128]);
+                }
+            }
+        }
+    }
     // every conversion: empty, one pair, a repeated key, more pairs than any small capacity
     for src in 0..=12i128 {
         for pairs in [&[][..], &[1, 10][..], &[1, 10, 1, 11][..], &[1, 10, 2, 20, 1, 11, 3, 30][..], &[5, 50, 4, 40, 3, 30, 2, 20, 1, 10, 5, 51][..]] {
